@@ -26,6 +26,8 @@ def main(argv):
             n = int(next(it))
         elif a == "--seed":
             seed0 = int(next(it))
+        elif a == "-v":
+            pass
         else:
             names.append(a)
     fams = families()
@@ -61,7 +63,7 @@ def main(argv):
                         break
             print(f"{name:14s} cfg{k} deliv {m.n_deliveries:6d} push {m.n_pushes:6d} past {m.n_past} tt {m.timetravel} "
                   f"maxPerInstant {m.max_per_instant:4d} spin {m.spin} runaway {m.runaway} err {r1.error or '-'} "
-                  f"{ms:6.0f} ms{flag}")
+                  f"{ms:6.0f} ms sha {sha(d1)[:12]}{flag}")
             if m.past:
                 print("   past:", m.past[:3])
             if "-v" in argv:
